@@ -109,6 +109,9 @@ func (c *Ctx) Inconclusive(why string) {
 	c.mu.Unlock()
 }
 
+// Stopped reports whether the run has a violation or was marked inconclusive.
+func (c *Ctx) Stopped() bool { c.mu.Lock(); defer c.mu.Unlock(); return c.viol != nil || c.incon != "" }
+
 // Probe counts a reached condition.
 func (c *Ctx) Probe(name string) { c.mu.Lock(); c.probes[name]++; c.mu.Unlock() }
 
